@@ -53,6 +53,10 @@ CLAIMED = {
          'Exploration by generated search: exact output equality (include renders in place, exec emits nothing and yields the last returned value, includeIfExists existing/missing/unparsable), no leak of callee declarations or context, relative names resolved against the including file (include) or the root (exec, includeIfExists).',
          "Trusts the reference interpreter. Not generated: 'return' inside a block body (whether it counts is unspecified), 'return nil' after another return or inside a range.",
          'DESIGN.md section 5/C09'),
+ 'C13': ('property-based testing (rapid), model-based: generated try statements whose bodies nest range/if-let/block/yield-content/include/inner-try around one of 24 failing actions (or none), with every catch form, placed at top level / in a block with content / in a range / in an include; oracle = MiniJet reference interpreter with transactional try, probes after the statement',
+         "Exploration by generated search over failure class x nesting path x catch form x placement; exact output equality (none of a failed body's bytes, catch exactly once, identical rendering on success) and probes of '.', variables, isset of every name declared inside, yield content and following text.",
+         "Trusts the reference interpreter. Assignments from inside a try body to variables declared outside are not generated (whether a failed body's assignments are rolled back is not specified).",
+         'DESIGN.md section 5/C13'),
 }
 PENDING = {}
 
